@@ -181,6 +181,10 @@ def _variants(kind, es, ns, d1, d2, w, perm, seed):
     ps = lambda x: pd.Series(np.asarray(x).copy(), index=pidx)  # noqa: E731
     out["series-permuted-index"] = ((ps(E), ps(N)), each(ps, D), each(ps, W))
     out["extra-coords"] = ((E, N, np.arange(n) * 7.0 - 3.0), D, W)
+    # ignored extra coordinates may hold anything - e.g. station heights missing (NaN) for some points
+    hole = np.arange(n) * 7.0 - 3.0
+    hole[:: max(2, n // 3)] = np.nan
+    out["extra-coords-with-nan"] = ((E, N, hole), D, W)
     out["int-coords"] = ((E.astype("int64"), N.astype("int64")), D, W)
     out["int-data"] = ((E, N), each(lambda x: x.astype("int64"), D), W)
     out["int-all"] = ((E.astype("int32"), N.astype("int32")), each(lambda x: x.astype("int64"), D), W)
@@ -195,7 +199,15 @@ def impl(case):
             warnings.simplefilter("ignore")
             qE, qN = np.array(qe), np.array(qn)          # 2-D query arrays of shape (4, 3)
             res = {}
-            for name, (coords, data, weights) in _variants(kind, es, ns, d1, d2, w, perm, seed).items():
+            allv = _variants(kind, es, ns, d1, d2, w, perm, seed)
+            # the SAME object fitted to the base points, then re-fitted to the same points in another order (VectorSpline2D keeps
+            # the force positions of its first fit, so forces and data then come in different orders)
+            g2 = build(kind, params)
+            g2.fit(*allv["base"])
+            g2.fit(*allv["permuted"])
+            p2 = g2.predict((qE, qN))
+            res["refit-permuted"] = [np.asarray(x, dtype=float).ravel().tolist() for x in (p2 if isinstance(p2, tuple) else (p2,))]
+            for name, (coords, data, weights) in allv.items():
                 p = _fit_predict(kind, params, coords, data, weights, (qE, qN))
                 if any(x.shape != (4, 3) for x in p):
                     raise RuntimeError(f"{name}: prediction shape {p[0].shape} is not the broadcast shape (4, 3)")
